@@ -327,6 +327,26 @@ def resource_catalogue():
         one("list_of_list_x%d" % n_, "x = " + "[" * n_ + "1" + "]" * n_ + "\n")
         one("listtype_vs_str_x%d" % n_, "x: " + "[" * n_ + "int" + "...]" * n_ + ' = "s"\n')
         one("eq_nested_lists_x%d" % n_, "x = " + "[" * n_ + "1" + "]" * n_ + " == " + "[" * n_ + "2" + "]" * n_ + "\n")
+    # constant operations on literals with multi-byte characters (a folder that slices bytes meets a character
+    # boundary): index, substring-like built-ins, len, reverse, at every offset
+    for tn_, lit_ in (("e_acute", "é"), ("a_e_acute", "aé"), ("cjk", "日本"), ("emoji", "a😀b"), ("combining", "e\u0301x")):
+        nb_ = len(lit_.encode("utf-8"))
+        for k_ in range(0, nb_ + 2):
+            one("const_index_%s_%d" % (tn_, k_), 'x = "%s"[%d]\nprint x\n' % (lit_, k_))
+            one("const_substring_%s_%d" % (tn_, k_), 'x = "%s".substring(0, %d)\nprint x\n' % (lit_, k_))
+            one("const_index_len_%s_%d" % (tn_, k_), 'x = ("%s"[%d]).len()\nprint x\n' % (lit_, k_))
+            one("const_split_%s_%d" % (tn_, k_), 'x = "%s".split(%d)\nprint x\n' % (lit_, k_))
+            one("const_insert_%s_%d" % (tn_, k_), 'x = "%s".insert("z", %d)\nprint x\n' % (lit_, k_))
+            one("const_decl_index_%s_%d" % (tn_, k_), 'const c = "%s"\nx = c[%d]\nprint typeof x\n' % (lit_, k_))
+        one("const_len_%s" % tn_, 'x = "%s".len() + "%s".reverse().len()\nprint x\n' % (lit_, lit_))
+    # deeply nested types that do NOT match (comparison must stay linear in the depth)
+    for n_ in (16, 24, 40, 100):
+        one("listtype_vs_strlist_x%d" % n_, "x: " + "[" * n_ + "int" + "...]" * n_ + " = " + "[" * n_ + '"x"' + "]" * n_ + "\n")
+        one("listtype_argument_mismatch_x%d" % n_, "f = fn(a: " + "[" * n_ + "int" + "...]" * n_ + ") {\n}\nf(" + "[" * n_ + '"x"' + "]" * n_ + ")\n")
+        one("fntype_nest_mismatch_x%d" % n_, "x: " + "fn() -> " * n_ + "int = fn() -> " + "fn() -> " * (n_ - 1) + "str {\n}\n")
+        one("optional_nest_mismatch_x%d" % n_, "x: int" + "?" * n_ + " = nil\ny: str" + "?" * n_ + " = x\n")
+        one("maptype_nest_mismatch_x%d" % min(n_, 60), "x: " + "map[int, " * min(n_, 60) + "int" + "]" * min(n_, 60) + " = " + "map[int, " * min(n_, 60) + "str" + "]" * min(n_, 60) + " { }\n")
+        one("list_return_mismatch_x%d" % n_, "f = fn() -> " + "[" * n_ + "int" + "...]" * n_ + " {\n  return " + "[" * n_ + '"x"' + "]" * n_ + "\n}\n")
     # string literals the scanner of the nesting guard and the grammar must delimit identically
     for tn_, lit_ in (("backslash_backslash_quote", '"\\\\" + "'), ("escaped_quote", '"a\\"b" + "'), ("hash_in_string", '"#" + "'),
                       ("triple_hash_in_string", '"###" + "'), ("backslash_n", '"\\n" + "'), ("lone_backslash_end", '"a\\\\"')):
@@ -653,6 +673,8 @@ PINNED = [
     "class A { constructor(self) -> [int, str] { } }\n",       #                 list_type
     "class A { constructor(self) -> map[int, int] { } }\n",    #                 user_map_type
     "a: int? = nil\nbbb: int? = nil\nif get bbb ?= a { }\n",   # math_expr.rs    unreachable!("Expected ident in lhs") — `(get bbb) ?= a`
+    "f = fn(g: fn() -> int, n: int) -> int {\n  if n <= 0 {\n    return g()\n  }\n  return self(fn() -> int { return 1 }, n - 1)\n}\n",   # scope.rs RefCell already borrowed: a function literal as argument of `self(..)`
+    "f = fn(cb: fn() -> Self) {\n  x = cb()\n  print x.foo\n}\n",   # type.rs assume_type_of_self unwrap(): `Self` outside a class
 ]
 
 
